@@ -55,6 +55,7 @@ def generate(rng, tier):
             if tier != "thorough" and (da + extra + order) % 2 and regime != "K0":
                 continue
             cases.append({"regime": regime, "a": a, "b": [], "collar": 0, "sup": sup})
+    cases += gen.far_copies(rng, cases, ['a', 'b', 'sup'], (400 if tier == "thorough" else 60))
     return {"cases": cases, "meta": {"exhaustive": False,
                                      "sizes": gen.stats(cases, {"n_a": lambda c: len(c["a"]), "n_b": lambda c: len(c["b"]),
                                                                 "collar": lambda c: min(c["collar"], 10)})}}
